@@ -85,7 +85,7 @@ func VerifC16_Regex() {
 			existing = append(existing, nm)
 		}
 	}
-	res := []string{"/eth[0-9]/", "/^(eth|wl)/", "/.*/", "/lo$/", "/x/"}
+	res := []string{"/eth[0-9]/", "/^(eth|wl)/", "/.*/", "/lo$/", "/x/", "/th1/", "/0$/"}
 	ri := v.Concretize(v.Choice(len(res)))
 	got, err := parseIfaceListWithRegex(verifLister{existing}, res[ri])
 	v.Assert(err == nil, "valid regexp accepted")
@@ -100,6 +100,10 @@ func VerifC16_Regex() {
 			return true
 		case 3:
 			return s == "lo"
+		case 5:
+			return s == "eth1"
+		case 6:
+			return s == "eth0" || s == "wlan0"
 		}
 		return false
 	}
